@@ -66,7 +66,7 @@ class Oracle:
                     if site not in sites: nsrc += 1; sites[site] = nsrc
                     p = u(8, sites[site]) + u(8, clock) + args[:4]
                     accepted[w].append(p); owner[p] = w
-            elif f[0] in ('co', 'rc', 'cf', 'rs'):
+            elif f[0] in ('co', 'rc', 'cf', 'rs', 'cb'):
                 writes, cnt = parse_out(tok)
                 def act(a):
                     nonlocal nsrc
@@ -98,7 +98,7 @@ class Oracle:
                 while i < len(writes):
                     ents = split_entries(writes[i]) or []
                     is_wp = len(ents) == 1 and int.from_bytes(ents[0][:8], 'little') == TAG_WP
-                    if is_wp and f[0] in ('co', 'cf'):
+                    if is_wp and f[0] in ('co', 'cf', 'cb'):
                         p = ents[0]; wid = int.from_bytes(p[8:16], 'little'); nl = int.from_bytes(p[16:20], 'little'); name = p[20:20 + nl]
                         batch = int.from_bytes(p[20 + nl:28 + nl], 'little')
                         j, got, evs = i + 1, 0, []
@@ -115,7 +115,15 @@ class Oracle:
                         outputs[-1].append(p); outputs[-1] += evs; delivered += evs
                         i = j
                     else:
+                        if 'framing' in ck and f[0] in ('co', 'cf', 'cb') and any(len(e) >= 8 and int.from_bytes(e[:8], 'little') < (1 << 63) for e in ents):
+                            return 'event entries written without an immediately preceding writer-properties entry whose batch size covers them'
                         outputs[-1] += ents; i += 1
+                if 'once' in ck and (f[0] == 'cb' or (f[0] == 'co' and (len(f) < 2 or f[1] == ''))) and tok[0] == 'W':
+                    # a consume that starts after every add returned and reads the newest stores delivers everything accepted so far
+                    dl = collections.Counter(delivered)
+                    for w_, ps in accepted.items():
+                        for p_ in ps:
+                            if dl[p_] == 0: return 'an accepted event of writer %d was not delivered by the first consume that started after its add returned' % w_
         # ---- end of history
         if 'once' in ck:
             cnt = collections.Counter(delivered)
@@ -149,7 +157,7 @@ def make_case(rng, **kw):
     quiescent = len(ops) >= 2 and ops[-1] == 'co:' and ops[-2] == 'co:' and not g.live
     return ops, g.stats, quiescent
 
-def run_session_property(ctx, checks, gen_kw, what, n_quick=1200, n_thorough=30000, extra_cases=()):
+def run_session_property(ctx, checks, gen_kw, what, n_quick=1200, n_thorough=30000, extra_cases=(), inside=False):
     rng, R = ctx.rng, Run(ctx, 'drv_session')
     for line in corpus_lines(ctx.pid):
         R.add_corr(line, ('corpus',))
@@ -157,6 +165,12 @@ def run_session_property(ctx, checks, gen_kw, what, n_quick=1200, n_thorough=300
     for ops in extra_cases:
         line = 'session ' + ' '.join(ops); R.add_corr(line, ('directed',), True)
         o = Oracle(ops, checks); o.quiescent_end = False; R.add_prop([line], o, what, (), True)
+    if inside:
+        # implementation-only histories (the model has no such operations): statements attempted while consume holds the mutex,
+        # a failing sink with retry, registrations during a write of reconsumeMetadata, consume while another thread holds the mutex
+        for ops in inside_cases(random.Random(ctx.seed * 977 + 3), ctx.n(300, 6000)):
+            o = Oracle(ops, checks); o.quiescent_end = False
+            R.add_prop(['session ' + ' '.join(ops)], o, what, ('inside',), True)
     for i in range(ctx.n(n_quick, n_thorough)):
         kw = dict(gen_kw); 
         if callable(kw.get('vary')): kw = kw['vary'](i, rng)
@@ -180,7 +194,15 @@ def inside_search(ctx, checks, what, n=400):
     """Search stage on the implementation alone (the model has no such operations): histories in which (a) a log statement is executed for the
     first time by another thread while consume holds the mutex (the real code must block it: the driver unwinds the attempt and runs it after consume),
     (b) the sink fails at the k-th write of a consume and the application consumes again, (c) sources are registered while a write of reconsumeMetadata is in progress."""
-    rng = random.Random(ctx.seed * 977 + 3); R = Run(ctx, 'drv_session')
+    R = Run(ctx, 'drv_session')
+    for ops in inside_cases(random.Random(ctx.seed * 977 + 3), n):
+        line = 'session ' + ' '.join(ops)
+        o = Oracle(ops, checks); o.quiescent_end = False
+        R.add_prop([line], o, what, ('inside',), True)
+    return [v for v in R.execute()['violations'] if v[1]]
+
+def inside_cases(rng, n):
+    out = []
     for i in range(n):
         ops = ['nw:1:4096:1:77']; clock = 10; used = set()
         if rng.random() < 0.5: ops.append('nw:2:4096:2:78')
@@ -194,12 +216,11 @@ def inside_search(ctx, checks, what, n=400):
             elif k < 0.55:
                 site = rng.randrange(8)
                 ops.append('co:1000|s%d.%d.%d.%d|%s' % (w, site, clock, clock, ';1000|s%d.%d.%d.%d|' % (nwr, (site + 1) % 8, clock + 100, clock + 100) if rng.random() < 0.4 else ''))
+            elif k < 0.62: ops.append('cb')                       # consume while another thread holds the session mutex
             elif k < 0.7: ops.append('cf:%d' % rng.randrange(1, 4)); ops.append('co:')
             elif k < 0.8: ops.append('cs:%d:1000000000:%d:0:5554' % (clock, clock))
             elif k < 0.95: ops.append('rs:%d:%s' % (rng.randrange(1, 3), ','.join('r%d' % rng.randrange(100) for _ in range(rng.randrange(1, 8)))))
             else: ops.append('co:')
         ops += ['co:', 'co:']
-        line = 'session ' + ' '.join(ops)
-        o = Oracle(ops, checks); o.quiescent_end = False
-        R.add_prop([line], o, what, ('inside',), True)
-    return [v for v in R.execute()['violations'] if v[1]]
+        out.append(ops)
+    return out
